@@ -43,10 +43,17 @@ Proof. exact env_forwards_results. Qed.
 Print Assumptions C15_error_forwarded_unchanged.
 
 Theorem C15_error_delivered_unchanged : forall awaiter awaited e w pr,
-  alookup awaiter (w_procs w) = Some pr ->
+  alookup awaiter (w_procs w) = Some pr -> alookup awaited (p_awaiting pr) <> None ->
   exists pr', alookup awaiter (w_procs (worker_notify awaiter awaited (RErr e) w)) = Some pr' /\ p_res pr' = Some (RErr e).
 Proof. exact worker_notify_same_error. Qed.
 Print Assumptions C15_error_delivered_unchanged.
+
+(* a failure of a process that is no longer awaited does not touch the former awaiter (repair of F45) *)
+Theorem C15_stale_failure_is_harmless : forall awaiter awaited e w pr,
+  alookup awaiter (w_procs w) = Some pr -> alookup awaited (p_awaiting pr) = None ->
+  w_procs (worker_notify awaiter awaited (RErr e) w) = w_procs w.
+Proof. exact stale_failure_is_harmless. Qed.
+Print Assumptions C15_stale_failure_is_harmless.
 
 Theorem C15_late_awaiter_is_registered : forall awaiter t w rs pr e,
   alookup t (w_procs w) = Some pr -> p_res pr = Some (RErr e) ->
